@@ -347,6 +347,42 @@ def run(ctx):
                 ctx.known_finding(known['w_eq_rel']['id'], known['w_eq_rel']['text'])
                 continue
             viol.append({'id': fid, 'why': 'folded constant is %d, C gives %d (mod 65536)' % (got, want), 'expression': 'v = %s;' % text})
+    # sizeof: every operand form, in a statement and in a calculator position, blanks inside the parentheses included
+    SZ = [('char', 1), (' char ', 1), ('char ', 1), ('short', 2), ('short int', 2), ('short  int', 2), ('int', 2), ('char *', 2), ('char*', 2),
+          ('arr', 10), ('arr[0]', 1), ('arr[X]', 1), ('sa', 6), ('sa[1]', 2), ('c', 1), ('s', 2), ('p', 2), ('p[0]', 1), ('tab', 4), ('tab[1]', 1)]
+    szj = []
+    for k_, (opnd, want) in enumerate(SZ):
+        decl = 'char arr[10]; short sa[3]; char c; short s; char *p; const char tab[4] = {1, 2, 3, 4}; short v;\n'
+        szj.append(('sz%d' % k_, decl + 'void main() { v = sizeof(%s); }\n' % opnd, want, 'v = sizeof(%s);' % opnd))
+        if '[' not in opnd:
+            szj.append(('szc%d' % k_, decl + 'const char t2[2] = {sizeof(%s), 0};\nvoid main() { v = t2[0]; }\n' % opnd, want, 'const char t2[2] = {sizeof(%s), 0};' % opnd))
+    sres = run_ccv(''.join(compile_job(i_, src, args=['-O0'], want=['funcs', 'vars']) for (i_, src, w_, t_) in szj))
+    szdec = 0
+    for (i_, src, want, text), r in zip(szj, sres):
+        if r['status'] != 'ok':
+            frej['sizeof: ' + ((r.get('err') or {}).get('msg') or r['status'])[:40]] = 1
+            if r['status'] in ('panic', 'hang') or ' ' in text.split('sizeof(')[1].split(')')[0].strip() or text.split('sizeof(')[1].split(')')[0] != text.split('sizeof(')[1].split(')')[0].strip():
+                # a spelling that differs from an accepted one only by blanks must be accepted too
+                base = text.replace('( ', '(').replace(' )', ')').replace('  ', ' ')
+                if r['status'] in ('panic', 'hang') or base != text:
+                    viol.append({'id': i_, 'why': 'sizeof operand rejected: %s' % ((r.get('err') or {}).get('msg') or r['status']), 'expression': text})
+            continue
+        got = None
+        if i_.startswith('szc'):
+            t2 = [v_ for v_ in r['vars'] if v_['name'] == 't2']
+            got = t2[0]['def'][1][0] if t2 and t2[0]['def'] else None
+        else:
+            lines = [l for f in r['funcs'] if f['name'] == 'main' for l in f['gen'] if l[0] == 'I']
+            imm = None
+            for l in lines:
+                if l[1] == 'LDA' and re.fullmatch(r'#\d+', l[6]):
+                    imm = int(l[6][1:])
+                elif l[1] == 'STA' and l[6] == 'v':
+                    got = imm
+        szdec += 1
+        if got != want:
+            viol.append({'id': i_, 'why': 'sizeof gives %s, C gives %d' % (got, want), 'expression': text})
+    ctx.cov['correspondence']['corr-S sizeof table'] = {'forms': len(szj), 'decided': szdec}
     ctx.cov['evaluations'] = len(exprs) + len(fold)
     ctx.cov['distinct_nontrivial'] = decided + fdec
     ctx.cov['correspondence']['corr-M calculator'] = {'expressions': len(exprs), 'mismatches': len(cm), 'outcomes': outcome,
@@ -363,4 +399,4 @@ def run(ctx):
                        'with minimal parentheses by C\'s rules, literals in decimal, hex, octal and character form; all 289 operator pairs; '
                        'the same kind of expressions inside statements (folding); decided = C defines the value (no overflow, no bad shift)')
     ctx.cov['trusted_base'] = ['Coq 8.16.1 kernel', 'extraction of Model/Calc.v', 'harness ccv', 'Python reference c_eval / minimal-parenthesis printer']
-    ctx.assumptions = ['32-bit wrapping as in a release build (a debug build panics on overflow: C16)', 'sizeof is checked only through the compiled values of sizeof(type) in generated programs']
+    ctx.assumptions = ['32-bit wrapping as in a release build (a debug build panics on overflow: C16)', 'sizeof: a fixed table of operand forms (types with every blank placement, scalars, arrays, elements, pointers) in statements and calculator positions']
